@@ -1,0 +1,64 @@
+//go:build verif
+
+package sampling
+
+import (
+	"encoding/binary"
+	"sync"
+
+	"golang.org/x/crypto/blake2b"
+)
+
+// Verification seam (build tag `verif` only): lets a harness make NewPRNG deterministic so that
+// a failing (parameters, seed) pair can be replayed. When no seed is installed NewPRNG behaves
+// exactly as upstream.
+var verifState struct {
+	sync.Mutex
+	on      bool
+	seed    uint64
+	counter uint64
+}
+
+// VerifSeed installs a seed: the i-th subsequent call to NewPRNG returns a KeyedPRNG keyed with
+// BLAKE2b-512(seed || i). Calling it again resets the call counter.
+func VerifSeed(seed uint64) {
+	verifState.Lock()
+	verifState.on, verifState.seed, verifState.counter = true, seed, 0
+	verifState.Unlock()
+}
+
+// VerifUnseed restores the upstream behaviour of NewPRNG.
+func VerifUnseed() {
+	verifState.Lock()
+	verifState.on = false
+	verifState.Unlock()
+}
+
+// VerifPRNGCalls returns the number of NewPRNG calls served since the last VerifSeed.
+func VerifPRNGCalls() uint64 {
+	verifState.Lock()
+	defer verifState.Unlock()
+	return verifState.counter
+}
+
+func verifNewPRNG() (*KeyedPRNG, bool) {
+	verifState.Lock()
+	if !verifState.on {
+		verifState.Unlock()
+		return nil, false
+	}
+	var buf [16]byte
+	binary.LittleEndian.PutUint64(buf[:8], verifState.seed)
+	binary.LittleEndian.PutUint64(buf[8:], verifState.counter)
+	verifState.counter++
+	verifState.Unlock()
+	key := blake2b.Sum512(buf[:])
+	prng := new(KeyedPRNG)
+	prng.key = key[:]
+	xof, err := blake2b.NewXOF(blake2b.OutputLengthUnknown, prng.key)
+	if err != nil {
+		return nil, false
+	}
+	prng.xof = xof
+	return prng, true
+}
